@@ -51,6 +51,9 @@ type c09Case struct {
 	// Crowd > 0: between the packets of script Scripts[0] that many other sessions (one command authorization each,
 	// every one under its own session id) run to completion on the same connection
 	Crowd int `json:"crowd,omitempty"`
+	// Pending: the crowd's sessions are logins that stop at the password prompt and are never continued, so that many
+	// sessions are OPEN on the connection when the first script goes on
+	Pending bool `json:"crowd_left_pending,omitempty"`
 	// Reuse: the scripts run one after the other on ONE connection under the SAME session id (each ends its session)
 	Reuse bool `json:"reuse_session_id,omitempty"`
 }
@@ -69,6 +72,9 @@ func c09Crowd(c *Ctx, rw *rworld, e *rEnv, scripts [][]rPkt, cs c09Case, alone m
 		}
 	}()
 	other := rPkt{Kind: "author", User: "own", Args: []string{"service=shell", "cmd=show"}}
+	if cs.Pending {
+		other = rPkt{Kind: "ascii", User: "own"}
+	}
 	wantOther := ""
 	step, next := 0, 1000
 	for pos, p := range scripts[cs.Scripts[0]] {
@@ -316,12 +322,17 @@ func c09Run(c *Ctx) {
 			run(c09Case{Scripts: []int{i, j}, Order: order, Reuse: true})
 		}
 	}
-	// a login waiting at a prompt while 70 (thorough: also 300) other sessions come and go on its connection
+	// a login waiting at a prompt while 70 (thorough: also 300) other sessions come and go on its connection, or are
+	// opened there and left waiting at their own prompt
 	for _, si := range []int{0, 1, 3, 7} {
 		for _, crowd := range tierPick(c.Quick, []int{70}, []int{70, 300}) {
 			job++
 			if c.Mine(job) {
 				c09Crowd(c, rw, e, scripts, c09Case{Scripts: []int{si}, Crowd: crowd}, alone)
+			}
+			job++
+			if c.Mine(job) {
+				c09Crowd(c, rw, e, scripts, c09Case{Scripts: []int{si}, Crowd: crowd, Pending: true}, alone)
 			}
 		}
 	}
